@@ -313,7 +313,7 @@ func (e *Env) Init() {
 	}
 	gs := types.GenesisState{Params: &e.params, TokenInfos: &types.TokenInfos{TokenInfos: e.tokens}}
 	keeper.InitGenesis(e.rootCtx, e.k, gs)
-	if e.useRealOracle {
+	{
 		op := oracletypes.DefaultParams()
 		oraclekeeper.InitGenesis(e.rootCtx, e.ok, oracletypes.GenesisState{Params: op})
 	}
